@@ -26,7 +26,7 @@ impl Lc {
     //@|     assert(self.at(k) != r0());
     //@| }
 
-    pub fn nterms(&self) -> (r: usize) ensures self.data.m@.dom().finite(), r == self.data.m@.dom().len(),
+    pub fn nterms(&self) -> (r: usize) ensures self.data.m@.dom().finite(), r == self.data.m@.dom().len(), r == self.data.ord@.len(),
     //@body impl/Lc/nterms
 
     pub fn coeff(&self, x: &GenK) -> (r: &ER) requires self.wf() ensures r.v() == self.at(x.k@),
